@@ -581,7 +581,7 @@ def r4_3(rep):
     for alt, guard, body, i in match_rows(ab, am):
         if alt == "_":
             r = val(ab, body)
-            rep.check(r[0] == "call" and "to_rust_ty_or_opaque" in r[1], "argument:other", "every other kind uses the type's own spelling: %s" % show(r, 70), ab.loc(body))
+            rep.check(r[0] == "call" and ("to_rust_ty_or_opaque" in r[1] or ("with_implicit_template_params" in r[1] and "to_rust_ty_or_opaque" in ab.canon(body, 5))), "argument:other", "every other kind uses the type's own spelling: %s" % show(r, 70), ab.loc(body))
     ib = prog.fn("codegen::utils::fnsig_arguments_iter")
     tyc = find_calls(ib, ib.root, "utils::fnsig_argument_type")
     rep.check(len(tyc) == 1, "argument:used-for-every-argument", "fnsig_arguments_iter spells each argument with fnsig_argument_type", ib.loc(ib.root))
@@ -599,7 +599,7 @@ def r4_3(rep):
         if alt == "ir::ty::TypeKind::Void":
             rep.check(guard is None and (r == ("tok", "( )") or r == ("tok", "()")), "return:void-is-unit", "void -> (): %s" % show(r), rb.loc(body))
         elif alt == "_":
-            rep.check(r[0] == "call" and "to_rust_ty_or_opaque" in r[1] and "return_type" in rb.canon(body, 5), "return:other", "anything else: the return type's own spelling: %s" % show(r, 70), rb.loc(body))
+            rep.check(r[0] == "call" and ("to_rust_ty_or_opaque" in r[1] or ("with_implicit_template_params" in r[1] and "to_rust_ty_or_opaque" in rb.canon(body, 5))) and "return_type" in rb.canon(body, 5), "return:other", "anything else: the return type's own spelling: %s" % show(r, 70), rb.loc(body))
         else:
             rep.bad("return:" + alt_str(alt), "unexpected special case for a return kind", rb.loc(body))
     r2 = rep.need(prog.fn("codegen::utils::fnsig_return_ty"), "fn fnsig_return_ty")
@@ -815,3 +815,158 @@ def r4_6(rep):
     rep.check(not ((either and padded_type) or longest), "fnsig-args:cursor-args-beyond-type-args@args_from_ty_and_cursor",
               "the pairing continues while either the cursor or the type still has an argument, so cursor arguments beyond the type's own "
               "parameter list become parameters (`int (*get(int a, int b))(char)` returns `fn(a: c_char, b: c_int)`)", b.loc(tws[0]))
+
+
+# ---------------------------------------------------------------------------------------------------------
+# R4.7  answer caches: what is remembered depends only on what it is remembered under
+# ---------------------------------------------------------------------------------------------------------
+MEMO_WRITE = {"set", "replace", "get_or_init", "get_or_insert_with", "or_insert_with", "or_insert", "insert", "get_or_insert"}
+MEMO_READ = {"get", "get_or_init", "take", "borrow", "get_or_insert_with", "or_insert_with"}
+MEMO_TYPES = ("std::cell::Cell<", "std::cell::OnceCell<", "std::cell::RefCell<", "std::sync::OnceLock<", "std::sync::Mutex<", "std::sync::RwLock<")
+
+
+def _self_field_root(b, e):
+    """(field name, ADT) if e is `self.<field>` possibly behind borrow()/borrow_mut()/entry chains, else None."""
+    e = strip(e)
+    for _ in range(8):
+        if e.get("k") == "MCall" and e.get("name") in ("borrow", "borrow_mut", "entry", "or_default", "lock", "unwrap", "get_mut", "as_ref", "as_mut"):
+            e = strip(e["recv"])
+            continue
+        break
+    if e.get("k") == "Field":
+        base = strip(e["base"])
+        d = b.local_def.get(base.get("id")) if base.get("k") == "Local" else None
+        if d and d[0][0] == "param" and d[0][1] == 0 and (b.ty(e) or "").replace("&", "").startswith(MEMO_TYPES):
+            return (e["f"], e.get("adt"))
+    return None
+
+
+def _param_deps(b, e, seen=None, depth=0):
+    """indices of the function's parameters the value of e depends on (through immutable lets, closure bodies, match scrutinees)."""
+    seen = set() if seen is None else seen
+    out = set()
+    if depth > 12 or not isinstance(e, dict):
+        return out
+    for x in b.walk(e):
+        if x["k"] != "Local" or x["id"] in seen:
+            continue
+        seen.add(x["id"])
+        d = b.local_def.get(x["id"])
+        if not d:
+            continue
+        o = d[0]
+        if o[0] == "param":
+            out.add(o[1])
+        elif o[0] == "let" and o[1].get("init") is not None:
+            out |= _param_deps(b, o[1]["init"], seen, depth + 1)
+        elif o[0] == "letcond":
+            out |= _param_deps(b, o[1]["init"], seen, depth + 1)
+        elif o[0] == "arm":
+            out |= _param_deps(b, o[1]["scrut"], seen, depth + 1)
+        elif o[0] == "for":
+            out |= _param_deps(b, o[1].get("iter"), seen, depth + 1)
+    return out
+
+
+@RULES.rule("R4.7", "answer caches in the IR remember a value only under everything it was computed from", floor=3)
+def r4_7(rep):
+    """`FunctionSig::abi(ctx, name)` answers per NAME (an `--override-abi` regex is matched against it) while several
+    declarations can share one signature (`typedef long fold_t(long); fold_t fold_a; fold_t fold_b;`).  Remembering the answer in
+    the signature (`effective_abi: Cell<Option<ClangAbi>>`) makes the first name asked decide for all: `fold_b` is declared
+    `extern "C"` although `--override-abi fold_b=win64` was given.  Rule: where a method both reads and fills an interior-mutable
+    field of `self`, the stored value may depend only on `self`, the context, and the key it is stored under."""
+    prog = rep.prog
+    n = 0
+    for p, b in sorted(prog.bodies.items()):
+        if not (p.startswith(("ir::", "<ir::", "codegen::", "<codegen::", "regex_set::")) or "ir::" in p.split(" as ")[0]):
+            continue
+        if b.fact.get("kind") == "Closure":
+            continue
+        writes, reads = {}, {}
+        for c in b.nodes:
+            if c["k"] != "MCall":
+                continue
+            root = _self_field_root(b, c["recv"])
+            if root is None:
+                continue
+            if c["name"] in MEMO_WRITE:
+                writes.setdefault(root, []).append(c)
+            if c["name"] in MEMO_READ:
+                reads.setdefault(root, []).append(c)
+        for root, ws in writes.items():
+            if root not in reads:
+                continue     # written here, consulted elsewhere: a flag or counter, not an answer cache of this method
+            # does the remembered value reach the method's result?  (counters like next_child_local_id do; that is fine, they have no key)
+            n += 1
+            ctx_params = {i for i, prm in enumerate(b.params) if "BindgenContext" in (prog.types[prm["t"]] if prm.get("t") is not None else "")}
+            bad = set()
+            for w in ws:
+                val = w["args"][-1] if w["args"] else None
+                deps = _param_deps(b, val) if val is not None else set()
+                for pol, kind, g in b.guards(w):
+                    if kind == "cond":
+                        deps |= _param_deps(b, g)
+                    elif kind == "arm":
+                        deps |= _param_deps(b, g[0]["scrut"])
+                # everything the value is filed under: keys of entry()/insert() on the way to the field
+                keys = set()
+                e = strip(w["recv"])
+                for _ in range(8):
+                    if e.get("k") == "MCall":
+                        if e.get("name") in ("entry", "get", "get_mut", "contains_key"):
+                            for a in e["args"]:
+                                keys |= _param_deps(b, a)
+                        e = strip(e["recv"])
+                    else:
+                        break
+                if w["name"] == "insert" and len(w["args"]) == 2:
+                    keys |= _param_deps(b, w["args"][0])
+                bad |= deps - {0} - ctx_params - keys
+            names = sorted(str((b.params[i] or {}).get("name", i)) for i in bad if i < len(b.params))
+            rep.check(not bad, "memo:%s.%s@%s" % ((root[1] or "?").split("::")[-1], root[0], short(p)),
+                      "the remembered value depends on self / ctx / its key only" if not bad else
+                      "the value remembered in `%s` depends on parameter(s) %s that it is not filed under: the first caller's answer is "
+                      "served to every later caller" % (root[0], names), b.loc(ws[0]))
+    rep.need(n >= 3, "methods that fill and read an interior-mutable field of self (canonical_name, local_id, path_for_allowlisting, ..)")
+
+
+# ---------------------------------------------------------------------------------------------------------
+# R4.8  which C++ ABI family the target uses (decides which mangled destructor / constructor variant is bound)
+# ---------------------------------------------------------------------------------------------------------
+@RULES.rule("R4.8", "the Microsoft C++ ABI is assumed exactly for MSVC-environment triples", floor=2)
+def r4_8(rep):
+    """`cursor_mangling` keeps only the complete-object destructor (`D1Ev`) under the Itanium ABI and takes libclang's single
+    mangling under the Microsoft one.  Classifying `x86_64-pc-windows-gnu` (MinGW: Itanium ABI, OS component `windows`) as
+    Microsoft binds a virtual destructor to `_ZN5ShapeD0Ev`, the deleting destructor, which also frees the object."""
+    prog = rep.prog
+    tb = rep.need(prog.fn("clang::TargetInfo::new"), "clang::TargetInfo::new")
+    ok_markers = set(ORACLE["microsoft_cxx_abi"]["triple_markers"])
+    ms = [n for n in tb.nodes if n["k"] == "Path" and str(n.get("def", "")).endswith("ABIKind::Microsoft")]
+    it = [n for n in tb.nodes if n["k"] == "Path" and str(n.get("def", "")).endswith("ABIKind::GenericItanium")]
+    rep.need(ms and it, "both ABIKind variants are chosen in TargetInfo::new")
+    for n in ms:
+        # conditions on the triple text (assertions on the pointer width etc. are not about the ABI)
+        conds = [(pol, g) for pol, kind, g in tb.guards(n) if kind == "cond" and
+                 any(x["k"] == "Lit" and x.get("lk") == "str" or (x["k"] == "MCall" and (tb.ty(x["recv"]) or "").replace("&", "") in ("str", "std::string::String"))
+                     for x in tb.walk(g))]
+        lits, shapes_ok = set(), bool(conds)
+        for pol, g in conds:
+            todo = [strip(g)]
+            while todo:
+                e = todo.pop()
+                if e.get("k") == "Binary" and e["op"] in ("&&", "||"):
+                    todo += [strip(e["l"]), strip(e["r"])]
+                    continue
+                if e.get("k") == "MCall" and e.get("name") in ("contains", "ends_with") and pol:
+                    a = strip(e["args"][0])
+                    if a.get("k") == "Lit" and isinstance(a.get("v"), str):
+                        lits.add(a["v"].strip("-"))
+                        continue
+                shapes_ok = False
+        ok = shapes_ok and bool(lits) and lits <= ok_markers
+        rep.check(ok, "microsoft-abi-iff-msvc-environment", "ABIKind::Microsoft is chosen when the triple contains %s" % sorted(lits) if ok else
+                  "ABIKind::Microsoft is chosen under `%s`: only the MSVC environment (%s) uses the Microsoft C++ ABI; `*-windows-gnu` is Itanium"
+                  % (" / ".join(tb.canon(g, 3)[:70] for _, g in conds), sorted(ok_markers)), tb.loc(n))
+    for n in it:
+        neg = [g for pol, kind, g in tb.guards(n) if kind == "cond" and not pol]
+        rep.check(bool(neg), "itanium-abi-otherwise", "ABIKind::GenericItanium is the alternative of that test", tb.loc(n))
